@@ -401,8 +401,8 @@ MUTANTS = [
 ]
 TWINS = [
     {"id": "c20-twin-with-form", "file": B,
-     "old": "        out_file = self.header.prep_outfile(outfile_name, nbits=nbits_out)\n        for _, _, data in self.read_plan(\n            gulp=gulp,\n            start=start,\n            nsamps=nsamps,\n            **plan_kwargs,\n        ):\n            out_file.cwrite(data)\n        out_file.close()\n        return outfile_name",
-     "new": "        with self.header.prep_outfile(outfile_name, nbits=nbits_out) as out_file:\n            for _, _, data in self.read_plan(\n                gulp=gulp,\n                start=start,\n                nsamps=nsamps,\n                **plan_kwargs,\n            ):\n                out_file.cwrite(data)\n        return outfile_name"},
+     "old": "            nbits=self.header.nbits,\n        )\n        for _, _, data in self.read_plan(\n            gulp=gulp,\n            start=start,\n            nsamps=nsamps,\n            **plan_kwargs,\n        ):\n            out_file.cwrite(data)\n        out_file.close()\n        return outfile_name",
+     "new": "            nbits=self.header.nbits,\n        )\n        with out_file:\n            for _, _, data in self.read_plan(\n                gulp=gulp,\n                start=start,\n                nsamps=nsamps,\n                **plan_kwargs,\n            ):\n                out_file.cwrite(data)\n        return outfile_name"},
     {"id": "c20-twin-temp-var", "file": B,
      "old": "            out_file.cwrite(out_ar[: nsamps_r * self.header.nchans])",
      "new": "            nout = nsamps_r * self.header.nchans\n            block_out = out_ar[:nout]\n            out_file.cwrite(block_out)"},
